@@ -14,7 +14,9 @@ CONSTANTS Tier, Emit
 ProfileClasses == {"plain", "buildid0", "buildid1", "buildid2", "buildid3", "emptynames", "hugeids", "emptylabelkey", "edgeaddresses",
                    "nomappings", "nosamples", "negativevalues", "nofunctions", "nilmapping", "weirdstrings", "zerovalues", "extremevalues", "partialunits",
                    "zerocount", "oddlines"}
-Commands == {"top", "tree", "dot", "tags", "traces", "raw", "callgrind", "list", "disasm", "weblist", "peek", "proto", "topproto", "svg", "comments", "text"}
+\* "...@addr": the argument is the address of the first location of the profile instead of a regular expression
+Commands == {"top", "tree", "dot", "tags", "traces", "raw", "callgrind", "list", "disasm", "weblist", "peek", "proto", "topproto", "svg", "comments", "text",
+             "list@addr", "weblist@addr", "disasm@addr", "peek@addr"}
 RegexFlags == {"focus", "ignore", "hide", "show", "show_from", "tagshow", "taghide", "prune_from", "tagroot", "tagleaf"}
 RegexVals == {"f", "(", "", ".*", "[", "a**", "\\", "(?i)F", "f|", "^$"}
 TagVals == {"k", "-9223372036854775808:", ":9223372036854775807", "-9223372036854775808", "1:", ":1", "1mb:2gb", "99999999999999999999", "1:99999999999999999999", "1xyz:2", "-5:", "1:2:3", "bytes=1:2", "=:", "k=", "=x", "1mb:2s", "0:0", ","}
@@ -26,7 +28,7 @@ OtherOpts == { <<"sample_index", v>> : v \in {"0", "1", "5", "-1", "s1", "nosuch
          \cup { <<"tools", v>> : v \in {"bogus", "nm:/nonexistent", ":::"} }
          \cup { <<"buildid", v>> : v \in {"", "a", "ab", "abc"} }
          \cup { <<"add_comment", v>> : v \in {"", "x\ny"} }
-         \cup { <<"source_path", "/nonexistent">>, <<"trim_path", "/x:/y">>, <<"mean", "true">>, <<"call_tree", "true">>, <<"drop_negative", "true">>,
+         \cup { <<"source_path", "/nonexistent">>, <<"trim_path", "/x:/y">>, <<"trim_path", "a.c">>, <<"trim_path", "/a::/b">>, <<"trim_path", ":">>, <<"trim_path", "/">>, <<"mean", "true">>, <<"call_tree", "true">>, <<"drop_negative", "true">>,
                 <<"relative_percentages", "true">>, <<"noinlines", "true">>, <<"showcolumns", "true">>, <<"compact_labels", "true">>, <<"intel_syntax", "true">>,
                 <<"lines", "true">>, <<"files", "true">>, <<"addresses", "true">>, <<"filefunctions", "true">>, <<"cum", "true">> }
 Options == { <<f, v>> : f \in RegexFlags, v \in RegexVals }
@@ -35,7 +37,7 @@ Options == { <<f, v>> : f \in RegexFlags, v \in RegexVals }
            \cup OtherOpts \cup { <<"", "">> }
 
 \* the options that change which arithmetic a report does: combined with every profile class in the quick tier as well
-ShapeOpts == { <<"mean", "true">>, <<"call_tree", "true">>, <<"drop_negative", "true">>, <<"noinlines", "true">>, <<"lines", "true">>, <<"addresses", "true">>, <<"cum", "true">> }
+ShapeOpts == { <<"trim_path", "/a::/b">>, <<"mean", "true">>, <<"call_tree", "true">>, <<"drop_negative", "true">>, <<"noinlines", "true">>, <<"lines", "true">>, <<"addresses", "true">>, <<"cum", "true">> }
 
 VARIABLES pc, prof, cmd, opt
 vars == <<pc, prof, cmd, opt>>
